@@ -372,7 +372,7 @@ func TestVF_C30_ReadersEnum(t *testing.T) {
 	defer st.Flush()
 	blobs := [][]byte{{}, []byte("x"), []byte("hello large file payload 0123456789"), bytes.Repeat([]byte{0xab, 0x00, 0xff}, 100)}
 	if os.Getenv("VERIF_TIER") == "thorough" {
-		blobs = append(blobs, bytes.Repeat([]byte("0123456789abcdef"), 4096), []byte{0}, []byte("\x00\x00"))
+		blobs = append(blobs, bytes.Repeat([]byte("0123456789abcdef"), 256), []byte{0}, []byte("\x00\x00"))
 	}
 	for _, blob := range blobs {
 		for _, alg := range c30Algs {
